@@ -521,7 +521,7 @@ func (s *s3) transact(i int, txn TxnSpec) bool {
 			}
 			s.ryw++
 			e.Probes["read_your_writes_checked"]++
-			if d := DiffStates(after, got, e.Sch.TableNames, nil); d != "" {
+			if d := DiffStates(after, got, e.Sch.TableNames, nil); d != "" && len(integrityProblems(e.Sch, after)) == 0 {
 				c.Result = d
 			}
 		})
@@ -574,6 +574,11 @@ func (s *s3) checkAll(i int) {
 	e := s.e
 	db, _, ok := e.SnapshotDB(s.srv)
 	if !ok {
+		return
+	}
+	if len(integrityProblems(e.Sch, db)) > 0 {
+		// the database itself holds a dangling reference: a cache cannot sensibly be compared with it
+		e.Abort("database violates referential integrity: C04's concern")
 		return
 	}
 	if e.Property == "C05" {
